@@ -121,6 +121,7 @@ func Plan(out string, seed uint64, tier string, scenario string, count int, epoc
 			pr.CommitteeDrop = n == "basic"
 			pr.DepositFork = i%6 == 1
 			pr.SyncSeat = n == "withdrawals" || n == "all_ops_one_block"
+			pr.ActivationTies = n == "activation_queue" || n == "all_ops_one_block"
 			if i%12 == 10 {
 				pr.ForkBias = "phase0long"
 				pr.Phase0Leak = true
@@ -151,7 +152,8 @@ func Plan(out string, seed uint64, tier string, scenario string, count int, epoc
 				pr.ZeroHashMerge = 1
 				pr.DepositFork = true
 				pr.SyncSeat = true
-				pr.RetryUntil = "deneb.topup_zero_balance_nonparticipating_sync_member"
+				pr.ActivationTies = true
+				pr.RetryUntil = "deneb.topup_zero_balance_nonparticipating_sync_member,activation_queue_over_12_non_monotone"
 			case 4:
 				// four phase0 epochs with a leak, altair on a sync-period boundary
 				pr.ForkBias = "phase0long"
@@ -301,6 +303,13 @@ func CLI(args []string) int {
 // RequiredQuick: counters (summary.json: per_fork.<fork>.<k> for "<fork>.<k>", else counts.<k>) that must be non-zero in
 // every quick run.
 var RequiredQuick = []string{
+	// round 10
+	"pslash_evidence_epoch_outside_window_total", "aslash_evidence_epoch_outside_window_total",
+	"corrupt.pslash_withdrawable_evidence_inside_window", "corrupt.aslash_withdrawable_evidence_inside_window",
+	"activation_queue_over_12_non_monotone",
+	"corrupt.pslash_at_withdrawable_epoch", "corrupt.aslash_at_withdrawable_epoch", "corrupt.pslash_last_slashable_epoch", "corrupt.aslash_last_slashable_epoch",
+	"corrupt.blschange_odd_prefix_credentials", "corrupt.deposit_topup_bad_proof", "corrupt.deposit_bad_proof",
+	"clone_block_checks.phase0", "clone_block_checks.altair", "clone_block_checks.bellatrix", "clone_block_checks.capella", "clone_block_checks.deneb",
 	// round 9
 	"aslash_overlapping_pairs_total", "altair.att_double_vote_wrong_target_first", "bellatrix.att_double_vote_wrong_target_first",
 	"capella.att_double_vote_wrong_target_first", "deneb.topup_zero_balance_nonparticipating_sync_member",
@@ -426,6 +435,8 @@ func Summarize(results []ChainResult, seed uint64, tier string, secs float64) ma
 	}
 	for _, f := range ForkNames {
 		other["aslash_overlapping_pairs_total"] += perFork[f]["aslash_overlapping_pairs"]
+		other["pslash_evidence_epoch_outside_window_total"] += perFork[f]["pslash_evidence_epoch_outside_window"]
+		other["aslash_evidence_epoch_outside_window_total"] += perFork[f]["aslash_evidence_epoch_outside_window"]
 	}
 	for _, k := range RequiredQuick {
 		if get(k) == 0 {
